@@ -7,6 +7,7 @@ computed independently on canonical term dictionaries.
 """
 from __future__ import annotations
 
+import json
 import operator
 from typing import Any, Dict, List, Optional, Tuple
 
@@ -121,6 +122,12 @@ def generate(rs: int, tier: str, index: int) -> dict:
             extra = [e for e in ([1] * len(names), [3] + [0] * (len(names) - 1)) if e not in a["exponents"]]
             zero = [0j if False else 0] * len(a["coefficients"][0]) if a["coefficients"] else []
             b = {"poly": dict(a, exponents=a["exponents"] + extra[:1], coefficients=a["coefficients"] + ([[[0.0, 0.0]] * len(zero)] if kindc == "complex" else [[0.0 if kindc == "float" else 0] * len(zero)]) * len(extra[:1]))}
+        elif mode < 7:
+            # the same storage layout (shape, dtype, term keys) over other indeterminates: only the names tuple differs
+            pool = [n for n in ["q0", "q1", "q2", "q3", "q10", "q12"] if n not in names]
+            other = sorted(ch.sample(pool, len(names)), key=model.name_key)
+            src = a if ch.chance(0.5) else _near(ch.sub("b"), a)
+            b = {"poly": dict(json.loads(json.dumps(src)), names=other)}
         else:
             rel = ch.below(3)
             bn = names if rel == 0 else model.gen_names(ch.sub("bn"), 1, 3)
@@ -350,7 +357,7 @@ class Runner:
             want = numpy.array([0 if is_complex else model.compare_elements(x, y, g, r) for x, y in zip(el_l, el_r)], dtype=int).reshape(shape)
             eq_want = numpy.array([self._el_equal(x, y) for x, y in zip(el_l, el_r)], dtype=bool).reshape(shape)
             where = {"graded": g, "reverse": r, "policy": pol}
-            with seams.Env(core.H(self.rs, pol, g, r), sort=pol) as env, reach_options(step.get("reach", "direct"), g, r, step.get("other_options")):
+            with seams.Env(core.H(self.rs, pol, g, r), sort=pol, fill="a5") as env, reach_options(step.get("reach", "direct"), g, r, step.get("other_options")):
                 env.begin_step(sid)
                 got: Dict[str, Any] = {}
                 spellings: Dict[str, Any] = {}
@@ -467,7 +474,7 @@ class Runner:
         sid = step["id"]
         out = []
         for g, r, pol in self.settings():
-            with seams.Env(core.H(self.rs, pol, g, r), sort=pol) as env, reach_options(step.get("reach", "direct"), g, r, step.get("other_options")):
+            with seams.Env(core.H(self.rs, pol, g, r), sort=pol, fill="a5") as env, reach_options(step.get("reach", "direct"), g, r, step.get("other_options")):
                 env.begin_step(sid)
                 lt = [[None] * 3 for _ in range(3)]
                 try:
